@@ -772,10 +772,42 @@ func init() {
 			eof := *fr.i.globals[iop.Var("EOF")]
 			return tuple{iface{}, eof}
 		}
+		if t, isI := list[pos].(iface); isI && t.t != nil {
+			if n, named := t.t.(*types.Named); named && n.Obj().Name() == "StraySyntax" {
+				return tuple{iface{}, fr.i.opaqueError("invalid character", iface{})}
+			}
+		}
 		r.ghostFlags["json.pos"] = pos + 1
 		return tuple{list[pos], iface{}}
 	}
 
+	// Decoder.More (documented: "reports whether there is another element in the current array or object being
+	// parsed"; implementation: the next non-space byte exists and is neither ']' nor '}')
+	intrinsics["(*encoding/json.Decoder).More"] = func(fr *frame, args []value) value {
+		r := fr.i.run
+		toks, ok := r.ghostFlags["json.tokens"]
+		if !ok {
+			return notHandled{}
+		}
+		list := toks.([]value)
+		pos := r.ghostFlags["json.pos"].(int)
+		if pos >= len(list) {
+			return false
+		}
+		if t, isI := list[pos].(iface); isI && t.t != nil {
+			if n, named := t.t.(*types.Named); named && n.Obj().Name() == "Delim" {
+				if d, isInt := t.v.(int32); isInt && (d == ']' || d == '}') {
+					return false
+				}
+			}
+			if n, named := t.t.(*types.Named); named && n.Obj().Name() == "StraySyntax" {
+				if sv, isS := t.v.(string); isS && (sv == "]" || sv == "}") {
+					return false
+				}
+			}
+		}
+		return true
+	}
 	intrinsics["(*github.com/invopop/gobl/bill.Invoice).Calculate"] = func(fr *frame, args []value) value {
 		if f, ok := fr.i.run.ghostFlags["invoice.Calculate"]; ok {
 			if b, isB := f.(bool); isB && b {
@@ -1180,7 +1212,7 @@ func nativeFallbackOK(name string) bool { return false }
 func (i *interpreter) nativeCall(fn *ssa.Function, args []value) (value, bool) { return nil, false }
 
 func schemaPattern(rel string) string {
-	data, err := os.ReadFile("/repo/data/schemas/" + rel)
+	data, err := os.ReadFile(repoRoot()+"/data/schemas/" + rel)
 	if err != nil {
 		return "<unreadable " + rel + ">"
 	}
@@ -1192,7 +1224,7 @@ func schemaPattern(rel string) string {
 }
 
 func schemaValue(rel, key string) string {
-	data, err := os.ReadFile("/repo/data/schemas/" + rel)
+	data, err := os.ReadFile(repoRoot()+"/data/schemas/" + rel)
 	if err != nil {
 		return ""
 	}
@@ -1269,7 +1301,7 @@ func published(kind, name string) []string {
 	}
 	switch kind {
 	case "currencies":
-		files, _ := filepath.Glob("/repo/data/currency/*.json")
+		files, _ := filepath.Glob(repoRoot()+"/data/currency/*.json")
 		sort.Strings(files)
 		for _, f := range files {
 			var list []struct {
@@ -1282,7 +1314,7 @@ func published(kind, name string) []string {
 			}
 		}
 	case "regimes", "addons":
-		files, _ := filepath.Glob("/repo/data/" + kind + "/*.json")
+		files, _ := filepath.Glob(repoRoot()+"/data/" + kind + "/*.json")
 		sort.Strings(files)
 		for _, f := range files {
 			var doc struct {
@@ -1307,7 +1339,7 @@ func published(kind, name string) []string {
 				} `json:"list"`
 			} `json:"tags"`
 		}
-		if readJSON("/repo/data/"+name+".json", &doc) {
+		if readJSON(repoRoot()+"/data/"+name+".json", &doc) {
 			for _, t := range doc.Tags {
 				if t.Schema == "bill/invoice" {
 					for _, k := range t.List {
@@ -1322,7 +1354,7 @@ func published(kind, name string) []string {
 
 func publishedExtension(key string) (values []string, pattern string, found bool) {
 	for _, dir := range []string{"addons", "regimes", "catalogues"} {
-		files, _ := filepath.Glob("/repo/data/" + dir + "/*.json")
+		files, _ := filepath.Glob(repoRoot()+"/data/" + dir + "/*.json")
 		sort.Strings(files)
 		for _, f := range files {
 			data, err := os.ReadFile(f)
@@ -1352,4 +1384,12 @@ func publishedExtension(key string) (values []string, pattern string, found bool
 		}
 	}
 	return nil, "", false
+}
+
+// repoRoot: /repo, or the checkout named by VERIF_REPO.
+func repoRoot() string {
+	if d := os.Getenv("VERIF_REPO"); d != "" {
+		return d
+	}
+	return "/repo"
 }
